@@ -163,7 +163,7 @@ def run(model, rep):
         b1 = Obj('NameBinding', name='keep')
         b2 = Obj('NameBinding', name='other')
         pinned = []
-        hooks = {'.disallow_rename': lambda I, e, args, kw, env: pinned.append(I.ev(e.func.value, env)),
+        hooks = {'.disallow_rename': lambda I, e, args, kw, env: pinned.append(I.last_recv),
                  'is_namespace': lambda I, e, args, kw, env: isinstance(args[0], Obj) and args[0].cls in ('FunctionDef', 'Module', 'ClassDef', 'Lambda', 'ListComp'),
                  'ast.iter_child_nodes': lambda I, e, args, kw, env: [],
                  'find__all__': lambda I, e, args, kw, env: []}
